@@ -159,7 +159,7 @@ def kill_stragglers(work):
                 cl = f.read()
         except OSError:
             continue
-        if work.encode() in cl and (b"vdrive" in cl or b"vsched" in cl or b"vthreads" in cl or b"vwriters" in cl):
+        if work.encode() in cl and any(x in cl for x in (b"vdrive", b"vsched", b"vthreads", b"vwriters", b"vforkstorm")):
             try:
                 os.kill(int(d), signal.SIGKILL)
             except OSError:
